@@ -325,6 +325,7 @@ Proof.
   - destruct (_ <? _)%nat; inversion Hs; subst. eapply Inv_wire_ext; [apply wire_cancel_task|assumption].
   - inversion Hs; subst. exact H.
   - destruct (ready s) eqn:E; inversion Hs; subst. apply run_item_inv. exact H.
+  - inversion Hs; subst. eapply Inv_wire_ext; [apply wire_transport_close|assumption].
 Qed.
 
 Lemma init_inv c : Inv_wire (init c).
